@@ -1085,7 +1085,7 @@ fn gen_long_uptime(r: &mut Rng) -> Case {
     let calls = gen_calls(r, Some(iv), Some(tv));
     let style = r.below(4);
     let c = r.range(0, (iv - 1).min(5 * MINUTE));
-    let mut delay = |r: &mut Rng| match style {
+    let delay = |r: &mut Rng| match style {
         0 | 1 => 0,
         2 => c,
         _ => r.range(0, iv - 1),
@@ -1112,6 +1112,9 @@ struct Ctx {
     seen_kinds: std::collections::HashSet<String>,
     /// model disagreements recorded so far (capped, so that they cannot crowd out failing inputs)
     model_fails: usize,
+    /// long-uptime family: pings observed in all its runs, the latest ping time (ms of model time)
+    long_uptime_ticks: u64,
+    long_uptime_max_ms: u64,
 }
 
 const MAX_MODEL_FAILS: usize = 6;
@@ -1174,6 +1177,36 @@ impl Ctx {
         }
     }
 
+    /// The long-uptime family: the same runs, model comparison and monitors as every other case, plus
+    /// its own buckets in the distribution (where on the uptime axis the peer falls silent).
+    fn long_uptime_batch(&mut self, cases: &[Case], threads: usize) {
+        for c in cases {
+            self.rep.count("family/long-uptime");
+            let Some((Some(iv), Some(tv))) = spec_config(&c.calls) else { continue };
+            self.rep.count(&format!(
+                "long-uptime/interval/{}",
+                match iv { x if x < HOUR => "minutes", x if x < DAY => "hours", _ => "days" }
+            ));
+            self.rep.count(&format!(
+                "long-uptime/timeout/{}",
+                match (tv / iv, tv % iv) { (1, 0) => "T=I", (2, 0) => "T=2I", (3, 0) => "T=3I", (_, 0) => "T=kI,k>3", _ => "T-not-a-multiple-of-I" }
+            ));
+            let upto = if c.rest.is_some() {
+                self.rep.count("long-uptime/peer/answers-every-ping-until-the-horizon");
+                c.horizon
+            } else {
+                self.rep.count("long-uptime/peer/answers-promptly-then-falls-silent");
+                c.delays.iter().enumerate().filter_map(|(k, d)| d.map(|d| k as u64 * iv + d)).max().unwrap_or(0)
+            };
+            let bucket = UPTIME_MARKS.iter().rev().find(|(_, m)| upto >= *m).map_or_else(|| format!("below-{}", UPTIME_MARKS[0].0), |(name, _)| format!("at-or-above-{name}"));
+            self.rep.count(&format!("long-uptime/{}/{bucket}", if c.rest.is_some() { "answered-until" } else { "last-pong" }));
+            if c.rest.is_none() && UPTIME_MARKS.iter().any(|(_, m)| upto < *m && upto + tv >= *m) {
+                self.rep.count("long-uptime/last-pong/within-T-before-a-mark");
+            }
+        }
+        self.run_batch(cases, "long-uptime", threads);
+    }
+
     fn run_batch(&mut self, cases: &[Case], origin: &str, threads: usize) {
         // the real task, in parallel (each case has its own runtime and clock)
         let mut obs: Vec<Option<Result<Obs, String>>> = vec![None; cases.len()];
@@ -1216,6 +1249,15 @@ impl Ctx {
                 Exit::Other { .. } => "run/exit/other",
                 Exit::Panic(_) => "run/exit/panic",
             });
+            if origin == "long-uptime" {
+                self.rep.count(match &o.exit {
+                    Exit::Alive => "long-uptime/exit/alive-at-horizon",
+                    Exit::Timeout { .. } => "long-uptime/exit/keepalive-timeout",
+                    _ => "long-uptime/exit/other",
+                });
+                self.long_uptime_ticks += o.pings.len() as u64;
+                self.long_uptime_max_ms = self.long_uptime_max_ms.max(o.pings.last().copied().unwrap_or(0));
+            }
             self.rep.count(match (o.eff.interval, o.eff.timeout) {
                 (None, _) => "run/config/disabled",
                 (Some(0), _) => "run/config/zero-interval",
@@ -1414,7 +1456,9 @@ fn main() {
     let rule = "builder: call sequences over all eight setters (exhaustive over a 7-value keepalive alphabet up to a length, plus random \
 with boundary values and assert-triggering zeros); non-trivial = at least two keepalive setter calls. runs: the real task under the \
 paused clock for (I, requested T) over a grid incl. T < I, T = I, T not a multiple of I, no timeout, disabled, built through different \
-call orders, against pong scripts (always within T, k rounds then silent, never, late, mixed, unsolicited); non-trivial = keepalive \
+call orders, against pong scripts (always within T, k rounds then silent, never, late, mixed, unsolicited), and a long-uptime family \
+(I of minutes to days, T = I .. 5 I, a peer answering promptly for up to 130 days of model time -- below, around and above 2^31 / 2^32 ms and \
+the corresponding microsecond / second marks -- that then falls silent, or keeps answering for 120 days); non-trivial = keepalive \
 enabled and at least two ticks inside the horizon; distinct by content";
     let mut cx = Ctx {
         rep: Report::new("keepalive", &args, rule),
@@ -1423,6 +1467,8 @@ enabled and at least two ticks inside the horizon; distinct by content";
         exited_after_silent_close: 0,
         seen_kinds: std::collections::HashSet::new(),
         model_fails: 0,
+        long_uptime_ticks: 0,
+        long_uptime_max_ms: 0,
     };
     let threads = std::thread::available_parallelism().map_or(4, std::num::NonZero::get).min(16);
     let rng = Rng::new(args.seed);
@@ -1448,9 +1494,9 @@ enabled and at least two ticks inside the horizon; distinct by content";
     cx.builder_batch(&corpus_builds, "corpus");
     cx.run_batch(&corpus_cases, "corpus", threads);
 
-    let (exh_len, n_builder, n_runs) = match args.tier {
-        Tier::Quick => (4, 60_000, 150_000),
-        Tier::Thorough => (6, 1_500_000, 4_000_000),
+    let (exh_len, n_builder, n_runs, n_long) = match args.tier {
+        Tier::Quick => (4, 60_000, 150_000, 400),
+        Tier::Thorough => (6, 1_500_000, 4_000_000, 40_000),
     };
 
     // builder: every sequence up to `exh_len` over a keepalive alphabet
@@ -1549,6 +1595,29 @@ enabled and at least two ticks inside the horizon; distinct by content";
         }
     }
     cx.run_batch(&grid, "grid", threads);
+
+    // long uptime: intervals of hours to days, a peer that answers for weeks or months of model time and
+    // then falls silent (or never does); a fixed grid around 2^31 ms / 2^32 ms of uptime, then random
+    let t_long = std::time::Instant::now();
+    let long_grid = long_uptime_grid(matches!(args.tier, Tier::Thorough));
+    cx.long_uptime_batch(&long_grid, threads);
+    let mut rl = rng.fork(3);
+    let mut left = n_long;
+    while left > 0 {
+        let n = left.min(8192);
+        let cases: Vec<Case> = (0..n).map(|_| gen_long_uptime(&mut rl)).collect();
+        cx.long_uptime_batch(&cases, threads);
+        left -= n;
+    }
+    cx.rep.notes.push(format!(
+        "long-uptime family: {} grid + {} random runs, {} pings observed, latest ping at {} ms = {:.1} days of model time (paused clock), {:.2} s of wall time",
+        long_grid.len(),
+        n_long,
+        cx.long_uptime_ticks,
+        cx.long_uptime_max_ms,
+        cx.long_uptime_max_ms as f64 / DAY as f64,
+        t_long.elapsed().as_secs_f64()
+    ));
 
     let mut rr = rng.fork(2);
     let mut left = n_runs;
